@@ -25,6 +25,7 @@ CLASSES = {
     # class: (representative text, expected type without a declared type)
     "uint": ("5", "int"), "sint": ("-5", "int"), "ffrac": ("0.5", "float"), "fwhole": ("5.0", "float"), "fexp": ("1e-07", "float"),
     "boolw": ("True", "bool"), "nonew": ("None", None), "bare": ("mnist", "str"), "quoted": ('"mnist"', "str"), "code": ("len(xs)", "str"),
+    "empty": ("", "str"),
 }
 NUMERIC = ("uint", "sint", "ffrac", "fwhole", "fexp")
 # an expression default (written back-tick quoted, the reader strips the ticks before the ladder) fits every declared type: the
@@ -47,6 +48,14 @@ class _Unknown(Exception):
 class _Return(Exception):
     def __init__(self, value):
         self.value = value
+
+
+class _Continue(Exception):
+    pass
+
+
+class _Break(Exception):
+    pass
 
 
 class Text(object):
@@ -160,6 +169,14 @@ class Ladder(object):
                 v = self.ev(l, env)
                 res = v is None
                 return res if isinstance(op, ast.Is) else not res
+            if isinstance(l, ast.Call) and isinstance(l.func, ast.Name) and l.func.id == "type" and len(l.args) == 1 and isinstance(op, (ast.In, ast.NotIn, ast.Is, ast.IsNot, ast.Eq, ast.NotEq)):
+                v = self.ev(l.args[0], env)
+                vt = "str" if isinstance(v, (Text, str)) else v.typ if isinstance(v, Val) else "NoneType" if v is None else None
+                if vt is None:
+                    raise _Unknown("type of %r" % (v,), e)
+                names = {n.id for n in ast.walk(r) if isinstance(n, ast.Name)} | {n.attr for n in ast.walk(r) if isinstance(n, ast.Attribute)}
+                res = vt in names
+                return res if isinstance(op, (ast.In, ast.Is, ast.Eq)) else not res
             if isinstance(op, (ast.In, ast.NotIn)):
                 v = self.ev(l, env)
                 cs = self.const_container(r, e)
@@ -182,12 +199,33 @@ class Ladder(object):
                     raise _Unknown("comparison", e)
                 return res if isinstance(op, ast.Eq) else not res
             raise _Unknown("comparison %s" % src(e, 30), e)
-        if isinstance(e, ast.Subscript) and isinstance(e.value, ast.Dict):
-            k = self.ev(e.slice, env)
-            for kk, vv in zip(e.value.keys, e.value.values):
-                if isinstance(kk, ast.Constant) and kk.value == k:
-                    return self.ev(vv, env)
-            raise _Exc("KeyError", e)
+        if isinstance(e, ast.Subscript):
+            d = e.value
+            if isinstance(d, ast.Name) and d.id not in env:
+                b = self.prog.lookup(d.id, e)
+                if b[0] == "value" and isinstance(b[2], ast.Dict):
+                    d = b[2]  # a dispatch table kept as a module constant
+            if isinstance(d, ast.Dict):
+                k = self.ev(e.slice, env)
+                for kk, vv in zip(d.keys, d.values):
+                    if isinstance(kk, ast.Constant) and kk.value == k:
+                        return self.ev(vv, env)
+                raise _Exc("KeyError", e)
+        if isinstance(e, ast.Subscript):
+            v = self.ev(e.value, env)
+            if isinstance(v, Text) and isinstance(e.slice, (ast.Constant, ast.UnaryOp)):
+                try:
+                    return CLASSES[v.cls][0][ast.literal_eval(e.slice)]
+                except IndexError:
+                    raise _Exc("IndexError", e)
+            if isinstance(v, Val) or v is None:
+                raise _Exc("TypeError", e)
+            raise _Unknown("subscript of %r" % (v,), e)
+        if isinstance(e, ast.Attribute):
+            v = self.ev(e.value, env)
+            if isinstance(v, (Val, Text)) or v is None:
+                raise _Exc("AttributeError", e)  # the builtin value types have none of the attributes AST nodes have
+            raise _Unknown("attribute of %r" % (v,), e)
         if isinstance(e, ast.Call):
             return self.call(e, env)
         raise _Unknown("expression %s" % src(e, 40), e)
@@ -198,7 +236,7 @@ class Ladder(object):
         if v is None:
             return False
         if isinstance(v, Text):
-            return True  # every class has a non-empty representative
+            return bool(CLASSES[v.cls][0])
         if isinstance(v, Val) and v.typ in ("float", "int", "complex"):
             raise _Unknown("truthiness of a number", at)
         if isinstance(v, str):
@@ -236,12 +274,22 @@ class Ladder(object):
             raise _Unknown("method %s of %r" % (f.attr, recv), e)
         if isinstance(f, ast.Name) and f.id == "isinstance" and len(e.args) == 2 and self.prog.lookup("isinstance", e)[0] == "builtin":
             v = self.ev(e.args[0], env)
-            vt = "str" if isinstance(v, (Text, str)) else v.typ if isinstance(v, Val) else None
+            vt = "str" if isinstance(v, (Text, str)) else v.typ if isinstance(v, Val) else "NoneType" if v is None else None
             if vt is None:
                 raise _Unknown("isinstance of %r" % (v,), e)
             names = {n.id for n in ast.walk(e.args[1]) if isinstance(n, ast.Name)} | {n.attr for n in ast.walk(e.args[1]) if isinstance(n, ast.Attribute)}
-            return vt in names
+            if vt == "NoneType":
+                return "NoneType" in names or any(isinstance(c, ast.Call) and isinstance(c.func, ast.Name) and c.func.id == "type" and c.args and isinstance(c.args[0], ast.Constant)
+                                                  and c.args[0].value is None for c in ast.walk(e.args[1]))
+            return vt in names or (vt == "bool" and "int" in names) or "object" in names
         args = [self.ev(a, env) for a in e.args]
+        if isinstance(f, ast.Name) and f.id == "len" and len(args) == 1 and self.prog.lookup("len", e)[0] == "builtin":
+            if isinstance(args[0], Text):
+                return len(CLASSES[args[0].cls][0])
+            if isinstance(args[0], str):
+                return len(args[0])
+            if isinstance(args[0], Val) or args[0] is None:
+                raise _Exc("TypeError", e)
         if isinstance(f, (ast.Name, ast.Attribute)):
             en = self.prog.ext_name(f, e)
             if en == "ast.literal_eval" and len(args) == 1:
@@ -285,6 +333,14 @@ class Ladder(object):
         names = {n.id for n in ast.walk(type_expr) if isinstance(n, ast.Name)} | {n.attr for n in ast.walk(type_expr) if isinstance(n, ast.Attribute)}
         return name in names or "Exception" in names or "BaseException" in names or (name in ("KeyError", "IndexError") and "LookupError" in names)
 
+    def _literal_seq(self, e, env):
+        """the tuple / list display an iterable denotes: written in place, or a module constant"""
+        if isinstance(e, ast.Name) and e.id not in env:
+            b = self.prog.lookup(e.id, e)
+            if b[0] == "value":
+                return b[2]
+        return e
+
     def block(self, stmts, env):
         for s in stmts:
             if isinstance(s, ast.Expr) and isinstance(s.value, ast.Constant):
@@ -320,6 +376,30 @@ class Ladder(object):
                 raise _Return(None if s.value is None else self.ev(s.value, env))
             elif isinstance(s, ast.Pass):
                 continue
+            elif isinstance(s, ast.Continue):
+                raise _Continue()
+            elif isinstance(s, ast.Break):
+                raise _Break()
+            elif isinstance(s, ast.For) and isinstance(self._literal_seq(s.iter, env), (ast.Tuple, ast.List)) and isinstance(s.target, (ast.Name, ast.Tuple)):
+                # a loop over a literal sequence (candidate converters tried in order) is unrolled
+                broke = False
+                for item in self._literal_seq(s.iter, env).elts:
+                    if isinstance(s.target, ast.Name):
+                        env[s.target.id] = self.ev(item, env)
+                    elif isinstance(item, (ast.Tuple, ast.List)) and len(item.elts) == len(s.target.elts) and all(isinstance(t, ast.Name) for t in s.target.elts):
+                        for t, x in zip(s.target.elts, item.elts):
+                            env[t.id] = self.ev(x, env) if not isinstance(x, ast.Lambda) else x
+                    else:
+                        raise _Unknown("loop target %s" % src(s.target, 30), s)
+                    try:
+                        self.block(s.body, env)
+                    except _Continue:
+                        continue
+                    except _Break:
+                        broke = True
+                        break
+                if not broke:
+                    self.block(s.orelse, env)
             elif isinstance(s, ast.Raise) and s.exc is None and self.handling:
                 raise self.handling[-1]
             elif isinstance(s, ast.Raise) and s.exc is not None:
@@ -327,6 +407,9 @@ class Ladder(object):
                 raise _Exc(getattr(nm, "id", getattr(nm, "attr", "Exception")), s)
             else:
                 raise _Unknown("statement %s" % src(s, 40), s)
+
+
+PROG = [None]
 
 
 def _find_ladder(fi):
@@ -350,6 +433,16 @@ def _find_ladder(fi):
             start = i
             break
     if start is None:
+        # the ladder was extracted: `var = helper(var, ...)` with a package helper that converts
+        def converts(fn):
+            return any(isinstance(c, ast.Call) and (getattr(c.func, "id", None) in ("int", "float", "complex", "literal_eval") or getattr(c.func, "attr", None) == "literal_eval")
+                       for f in PROG[0].reachable([fn]) for c in ast.walk(f.node))
+        for i, s in enumerate(body):
+            if isinstance(s, ast.Assign) and len(s.targets) == 1 and isinstance(s.targets[0], ast.Name) and s.targets[0].id == var and isinstance(s.value, ast.Call) \
+                    and any(isinstance(a, ast.Name) and a.id == var for a in s.value.args) and isinstance(s.value.func, (ast.Name, ast.Attribute)):
+                tg = [t for t in PROG[0].resolve_expr_fn(s.value.func, s.value) if isinstance(t, FunctionInfo)]
+                if len(tg) == 1 and converts(tg[0]):
+                    return var, [s]
         return var, []
     end = start + 1
     while end < len(body) and not any(isinstance(x, ast.Return) for x in ast.walk(body[end])) and var in names_in(body[end]) \
@@ -362,6 +455,7 @@ def rule_type_ladder(prog, rep, tier, anchor="defaults_utils.extract_default", t
     """TYPE-LADDER: every class of default text comes out of the conversion ladder with its own Python type, and no exception
     escapes it."""
     fi = prog.fn(anchor)
+    PROG[0] = prog
     var, stmts = _find_ladder(fi)
     if not stmts:
         raise AnalysisError("TYPE-LADDER: the conversion ladder (a conditional that applies int / float / literal_eval to the extracted default) was not found in %s" % anchor)
@@ -376,6 +470,8 @@ def rule_type_ladder(prog, rep, tier, anchor="defaults_utils.extract_default", t
                 continue  # a declared type that does not fit the text: whatever happens is not this rule's business
             if typ is None and want is None:
                 continue
+            if cls == "empty":
+                continue  # the reader never extracts an empty text; the class exists for the writer-side rules
             inst = "%s text %r%s" % (cls, text, "" if typ is None else " declared %s" % typ)
             env = {var: Text(cls)}
             if typ_param in fi.params():
@@ -408,5 +504,45 @@ def rule_type_ladder(prog, rep, tier, anchor="defaults_utils.extract_default", t
         raise AnalysisError("TYPE-LADDER: only %d (class, declared type) pairs could be followed through the ladder of %s" % (resolved, anchor))
 
 
-_CLS_WORDS = {"uint": "an unsigned integer", "sint": "a signed integer", "ffrac": "a float", "fwhole": "a whole-valued float", "fexp": "a float in exponent notation",
+_CLS_WORDS = {"empty": "the empty string", "uint": "an unsigned integer", "sint": "a signed integer", "ffrac": "a float", "fwhole": "a whole-valued float", "fexp": "a float in exponent notation",
               "boolw": "a boolean", "nonew": "None", "bare": "an unquoted string", "quoted": "a quoted string", "code": "an expression, written back-tick quoted"}
+
+
+def rule_quote_types(prog, rep, tier, anchor="pure_utils.quote"):
+    """QUOTE-TYPES (C02, C06, C08): the quoting helper is applied to IR defaults whenever the declared type mentions `str`
+    (`Union[int, str]`, `Optional[str]`), so it meets every kind of default value the domain has.  Its dispatch on the value's
+    type is run abstractly for a str (unquoted, quoted, empty), an int, a float, a bool and None: no exception may escape, and a
+    str must come back as a str."""
+    fi = prog.fn(anchor)
+    pn = fi.params()
+    a = fi.node.args
+    defaults = dict(zip(pn[len(pn) - len(a.defaults):], a.defaults))
+    folder = Folder(prog)
+    inputs = [("an unquoted str", Text("bare")), ("a quoted str", Text("quoted")), ("the empty str", Text("empty")), ("an int", Val("int", "uint")), ("a float", Val("float", "ffrac")),
+              ("a bool", Val("bool", "boolw")), ("None", None)]
+    resolved = 0
+    for words, v in inputs:
+        env = {pn[0]: v}
+        for q, d in defaults.items():
+            if isinstance(d, ast.Constant):
+                env[q] = d.value
+        lad = Ladder(prog, folder)
+        inst = "%s(%s)" % (anchor, words)
+        try:
+            try:
+                lad.block(fi.node.body, env)
+                out = None
+            except _Return as r:
+                out = r.value
+            resolved += 1
+            rep.holds("QUOTE-TYPES", inst, loc(prog, fi.node), "returns %s" % ("a str" if isinstance(out, (Text, str)) or (isinstance(out, Val) and out.typ == "str") else repr(out)))
+        except _Exc as x:
+            resolved += 1
+            rep.violation(Finding(
+                "QUOTE-TYPES", anchor, "raises:%s:%s" % (v.typ if isinstance(v, Val) else "str" if isinstance(v, Text) else "None", x.name),
+                "%s applied to %s raises %s at `%s`: the helper is called on every default whose declared type mentions str (`Union[int, str] = 3`), so emitting such a "
+                "parameter as a class or a docstring fails" % (anchor, words, x.name, src(x.at, 40)), loc(prog, x.at)))
+        except _Unknown as u:
+            rep.ob("QUOTE-TYPES", inst, "unresolved", loc(prog, u.at or fi.node), "not interpreted: %s" % u.why)
+    if resolved < 4:
+        raise AnalysisError("QUOTE-TYPES: only %d kinds of argument could be followed through %s" % (resolved, anchor))
